@@ -253,14 +253,27 @@ def run_impl(case):
             sex = opt.get("sex", "female" if i["female"] else "male")
             if sex is not None:
                 argv += [opt.get("sex_flag", "-x"), sex]
-            if purity is not None:
+            if purity is not None and case.get("op") == "cmd_call":
+                argv.append("--purity=" + repr(float(purity)))   # also negative / exponent spellings
+            elif purity is not None:
                 argv += ["--purity", repr(float(purity))]
             if i["hapX"]:
                 argv.append(opt.get("hapx_flag", "-y"))
             if i["par"]:
                 argv += ["--diploid-parx-genome", i.get("par_f", i["par"])]
+            if opt.get("center_at") is not None:
+                argv.append("--center-at=" + repr(float(opt["center_at"])))
+            if opt.get("center"):
+                argv += ["--center", opt["center"]]
             args = commands.parse_args(argv)
-            args.func(args)
+            if case.get("op") == "cmd_call":
+                # the glue op models the refusals of `_cmd_call` itself
+                try:
+                    args.func(args)
+                except RuntimeError as exc:
+                    return {"cli_error": "RuntimeError", "msg": str(exc)[:200], "wrote": os.path.exists(fout)}
+            else:
+                args.func(args)
             rr = read_cna(fin).data
             reread = [[str(r.chromosome), int(r.start), int(r.end), float(r.log2),
                        (None if not i["has_baf"] or r.baf != r.baf else float(r.baf))] for r in rr.itertuples()]
